@@ -33,6 +33,8 @@ def mpi_leg(chk, key, replay=None):
     """returns True iff the MPI executions were accepted"""
     if replay and "big" in os.path.basename(replay):
         return big_leg(chk, key, replay)
+    if replay and "ndebug" in os.path.basename(replay):
+        return ndebug_leg(chk, key, replay)
     exe = vt.build(*BUILD[0], **BUILD[1])
     trace = replay or chk.path(NAME)
     if not replay:
@@ -49,8 +51,29 @@ def mpi_leg(chk, key, replay=None):
     return ok
 
 
+BUILD_NDEBUG = (("drv_c04_ndebug", ["drv_c04.cpp"]), {"flags": ["-O0", "-DNDEBUG", "-I" + os.path.join(vt.HARNESS, "mpishim")]})
+
+
+def ndebug_leg(chk, key, replay=None):
+    """the same MPI executions with the library compiled under NDEBUG (what release builds of user programs do): nothing the
+    integrators need may live inside an assert"""
+    exe = vt.build(*BUILD_NDEBUG[0], **BUILD_NDEBUG[1])
+    trace = replay or chk.path("mpi_trace_ndebug.ndjson")
+    if not replay:
+        vt.run([exe, trace, str(chk.seed + 17), "0"], timeout=1200)
+    rows = vt.read_ndjson(trace)
+    ok, matched, res = chk.validate("Trace_C04", trace, need_actions=ACTIONS, timeout=1200, what="trace: MPI integrators under the shim, library compiled with -DNDEBUG")
+    if not ok:
+        bad = rows[matched] if matched < len(rows) else None
+        ctx = [r for r in rows[:matched + 1] if r["e"] == "MRun"][-1:]
+        chk.violation(key, trace, "MPI leg (NDEBUG build): event %d rejected by Trace_C04: %s in run %s" % (matched + 1, str(bad)[:300], str(ctx)[:400]))
+    return ok
+
+
 def legs(chk, key, big=False):
     ok = mpi_leg(chk, key)
+    if ok and big and chk.tier == "thorough":
+        ok = ndebug_leg(chk, key)
     if ok and big:
         ok = big_leg(chk, key)
     return ok
